@@ -30,7 +30,7 @@ class LabelMapperConverter(TransformConverterBase):
         atol = node.get('atol', 1e-8)
         no_label = node.get('no_label', np.nan)
 
-        if isinstance(mapper, NDArrayType):
+        if isinstance(mapper, (NDArrayType, np.ndarray)):
             if mapper.ndim != 2:
                 raise NotImplementedError("GWCS currently only supports 2D masks.")
             return LabelMapperArray(mapper, inputs_mapping)
